@@ -233,7 +233,7 @@ extern "C" void h_cmp() {
 #else
 #define PB_MASK ((1ULL << PB) - 1ULL)
 #endif
-static u64 ref_pow(u64 base, unsigned e) { u64 v = 1; unsigned i = 0; while (i < e) { v = v * base; ++i; } return v; }
+static u64 ref_pow(u64 base, unsigned e) { if (e == 0) return 1; u64 v = base; unsigned i = 1; while (i < e) { v = v * base; ++i; } return v; }
 static Opd pick_integral(int spec, u64 mask, bool fixed, i64 fixed_val) {   // integral value of any kind; reals are exact integers
     Opd o; o.k = pick_kind(spec);
     u64 mag = vf_u64(); bool neg = vf_u8() & 1;
@@ -306,6 +306,12 @@ extern "C" void h_pow_frac() {
 #ifndef NT
 #define NT 3
 #endif
+#ifndef SKL
+#define SKL (-1)
+#endif
+#ifndef SKR
+#define SKR (-1)
+#endif
 // kinds of an operand of == : 0 literal text, 1..3 literal number, 4 variable
 struct EqSide { unsigned kind; u64 bits; unsigned off, len; };
 static SymValue<C> g_root, g_ka, g_kb;
@@ -327,6 +333,9 @@ extern "C" void h_eq_mixed() {
     EqSide s[2]; QE e[2];
     for (unsigned i = 0; i < 2; i++) {
         s[i].kind = vf_u8(); vf_assume(s[i].kind <= 4);
+        { const int want = (i == 0) ? SKL : SKR;            // 0 text, 1 number (any kind), 4 variable, -1 anything
+          if (want == 0 || want == 4) vf_assume(s[i].kind == unsigned(want));
+          if (want == 1) vf_assume(s[i].kind >= 1 && s[i].kind <= 3); }
         s[i].bits = vf_u64(); s[i].off = vf_u8(); s[i].len = vf_u8();
         if (s[i].kind == 0) {
             vf_assume(s[i].off >= 2 && s[i].off <= 2 + NT && s[i].len <= 2 + NT - s[i].off);
